@@ -417,6 +417,19 @@ theorem domain_hypothesis_needed :
     matchU [⟨.domainSet, false, 1, false, 0⟩, ⟨.fallback, false, 0, false, 0⟩] [] []
       ⟨1, 1, List.replicate 16 0, 0, 0, 40000, 443, 1, 2, 0⟩ = some ⟨0, 0, false⟩ := by decide
 
+/-- **Observation (inherent to address-keyed learning, no alarm).** Two cached names on one address:
+`domain_routing_map` holds the OR of their bitmaps (the tracker's merge), so for a connection to the
+second name the kernel takes the first name's rule (`block`) while `Match(domain = second name)`
+decides by that name alone (`direct`, mark 7). H2 (installed word = the packet's own bitmap) excludes
+this input; the composed theorem (`Compose.KernelDomain`) specifies the kernel side by the
+cache-derived domain knowledge of the address, not by `Match(domain)`. -/
+theorem shared_address_or_observation :
+    routeK .little { installGen .little 0 [⟨.domainSet, false, 1, false, 0⟩, ⟨.domainSet, false, 0, false, 7⟩,
+        ⟨.fallback, false, 0, false, 0⟩] [] KMaps.empty with domain := [(2, 3 :: List.replicate 31 0)] }
+      ⟨1, 1, List.replicate 16 0, 0, 0, 40000, 443, 1, 2, 0⟩ = pack 1 0 false ∧
+    matchU [⟨.domainSet, false, 1, false, 0⟩, ⟨.domainSet, false, 0, false, 7⟩, ⟨.fallback, false, 0, false, 0⟩] []
+      (2 :: List.replicate 31 0) ⟨1, 1, List.replicate 16 0, 0, 0, 40000, 443, 1, 2, 0⟩ = some ⟨0, 7, false⟩ := by decide
+
 /-! ## 6. the process name (H3) -/
 
 /-- The former process-name gap (finding #6, repaired by C02.fix1): with the rule `pname('') -> block`
